@@ -97,3 +97,110 @@ def single_file_cases(depth=4, names=NAMES):
         return {"tree": {fname: {"items": items, "style": draw(styles())}}, "platforms": plats, "plain": draw(st.sampled_from([False, False, True]))}
 
     return case()
+
+
+# ---------------------------------------------------------------- multi-directory trees (C04, C18, C08, C10)
+
+HDR_NAMES = ["h.h", "k.h", "u.h"]
+CB = "cb"
+HDR_DIRS = [f"{CB}/src", f"{CB}/src/sub", f"{CB}/inc1", f"{CB}/inc2", f"{CB}/sys1", "ext"]
+INC_DIRS = [f"{CB}/inc1", f"{CB}/inc2", f"{CB}/sys1", f"{CB}/src/sub", "ext", f"{CB}/src"]
+
+
+def include_items(quote_ok=None, angle_ok=None, dangling=None):
+    """an include directive (quote / angle / computed through a macro) whose
+    spelling is drawn from the names known to resolve in that form"""
+    quote_ok = sorted(quote_ok if quote_ok is not None else HDR_NAMES)
+    angle_ok = sorted(angle_ok if angle_ok is not None else HDR_NAMES)
+    opts = []
+    if quote_ok:
+        opts += [st.tuples(st.just("quote"), st.sampled_from(quote_ok))] * 2
+    if angle_ok:
+        opts += [st.tuples(st.just("angle"), st.sampled_from(angle_ok))]
+    if dangling:
+        opts += [st.tuples(st.sampled_from(["quote", "angle"]), st.sampled_from(dangling))]
+    if not opts:
+        return None
+    fs = st.one_of(*opts)
+    plain = fs.map(lambda x: [["include", x[0], x[1]]])
+    computed = st.builds(
+        lambda x, i: [["undef", f"INC{i}"], ["define", f"INC{i}", f'"{x[1]}"' if x[0] == "quote" else f"<{x[1]}>"], ["include", "macro", f"INC{i}"]],
+        fs, st.integers(0, 1),
+    )
+    return st.one_of(plain, plain, plain, computed)
+
+
+def header_files(idx, names=NAMES, include_strategy=None, depth=2):
+    """A header: unguarded (leaf), #ifndef-guarded or #pragma once."""
+    @st.composite
+    def hdr(draw):
+        guard = draw(st.sampled_from(["none", "ifndef", "once", "ifndef"]))
+        extra = include_strategy if guard != "none" else None
+        body = draw(item_lists(depth, names, extra=extra, max_items=4, raw=False))
+        if not any(it[0] == "code" for it in body):
+            body = [["code", 1]] + body
+        if guard == "ifndef":
+            g = f"GUARD_{idx}"
+            items = [["chain", [["ifndef", g, [["define", g, ""]] + body]], None]]
+        elif guard == "once":
+            items = [["once"]] + body
+        else:
+            items = body
+        return {"items": items, "style": draw(styles())}
+
+    return hdr()
+
+
+def include_tree_cases(dangling=None, unknown=None):
+    @st.composite
+    def case(draw):
+        present = set()
+        for d in HDR_DIRS:
+            for n in HDR_NAMES:
+                if draw(st.integers(0, 99)) >= 45:
+                    present.add((d, n))
+        mains = ["cb/src/main.c"] + (["cb/src/sub/other.cpp"] if draw(st.booleans()) else [])
+        plats = {}
+        all_dirsets = []
+        for i in range(draw(st.integers(1, 2))):
+            cmds = []
+            for _ in range(draw(st.sampled_from([1, 1, 2]))):
+                dirs = draw(st.lists(st.tuples(st.sampled_from(["I", "I", "isystem"]), st.sampled_from(INC_DIRS)), min_size=0, max_size=5))
+                all_dirsets.append({d for _, d in dirs})
+                cmds.append({"file": draw(st.sampled_from(mains)), "defines": draw(define_sets()), "dirs": [list(x) for x in dirs], "forced": []})
+            plats[f"p{i}"] = cmds
+        common = set.intersection(*all_dirsets) if all_dirsets else set()
+        angle_ok = {n for n in HDR_NAMES if any((d, n) in present for d in common)}
+        angle_ok |= {"sub/" + n for n in HDR_NAMES if f"{CB}/src" in common and (f"{CB}/src/sub", n) in present}
+
+        def quote_ok(d):
+            ok = set(angle_ok) | {n for n in HDR_NAMES if (d, n) in present}
+            if d == f"{CB}/src":
+                ok |= {"sub/" + n for n in HDR_NAMES if (f"{CB}/src/sub", n) in present}
+            return ok
+
+        tree = {}
+        k = 0
+        for d in HDR_DIRS:
+            for n in HDR_NAMES:
+                if (d, n) in present:
+                    tree[f"{d}/{n}"] = draw(header_files(k, include_strategy=include_items(quote_ok(d), angle_ok, dangling)))
+                k += 1
+        for m in mains:
+            mdir = m.rsplit("/", 1)[0]
+            extra = include_items(quote_ok(mdir), angle_ok, dangling)
+            if unknown is not None:
+                extra = unknown if extra is None else st.one_of(extra, extra, unknown)
+            items = draw(item_lists(2, NAMES, extra=extra, max_items=6, raw=False))
+            inc = include_items(quote_ok(mdir), angle_ok, dangling)
+            if inc is not None and not any(it[0] == "include" for it in items):
+                items = items + draw(inc)
+            tree[m] = {"items": items, "style": draw(styles())}
+        for cmds in plats.values():
+            for c in cmds:
+                fo = sorted(quote_ok(c["file"].rsplit("/", 1)[0]))
+                if fo and draw(st.integers(0, 5)) == 0:
+                    c["forced"] = [draw(st.sampled_from(fo))]
+        return {"tree": tree, "platforms": plats, "cbroot": CB, "via_argparser": True, "plain": draw(st.sampled_from([False, True]))}
+
+    return case()
